@@ -84,7 +84,12 @@ func noteReason(kind, err string) {
 func runHistory(r *vf.Run, cfg Cfg, w *World, tag string, rng *vf.RNG, primary, twin Engine, lowEra bool, startHeight uint32) {
 	h := NewHist(r, w, tag, cfg.Prop)
 	g := &Gen{W: w, TB: chain.NewTxBuilder(uint32(rng.U64() % 1_000_000_000)), Rng: rng, Height: startHeight, Ts: w.BootTime + 5, LowEra: lowEra,
-		Profile: strings.ToLower(cfg.Prop)}
+		Profile: strings.ToLower(cfg.Prop), Scenarios: map[string]int{}}
+	defer func() {
+		for k, v := range g.Scenarios {
+			r.Add("scenario_started/"+k, int64(v))
+		}
+	}()
 	st := ReadState(primary.View())
 	n := cfg.Len
 	if lowEra {
